@@ -75,6 +75,9 @@ pub struct World {
     pub mark: u64,
     /// The ring was built with single_issuer() (bound to this thread).
     pub cfg_single_issuer: bool,
+    /// A `Signals` handle (real signalfd, its reads are simulated), created
+    /// on first use; dropped together with the descriptor.
+    pub signals: Option<*mut a10::process::Signals>,
 }
 
 /// Begin a case: reset simulator, shims, tracker epoch.
@@ -117,7 +120,7 @@ impl World {
             ring.sq()
         };
         let ring_fd = sim::sim().rings.iter().find(|r| !r.closed).map(|r| r.fd).ok_or("no simulated ring after build")?;
-        Ok(World { ring: Some(ring), sq: Some(sq), ring_fd, fds: Vec::new(), mark, cfg_single_issuer: cfg.defer_taskrun && !cfg.sqpoll })
+        Ok(World { ring: Some(ring), sq: Some(sq), ring_fd, fds: Vec::new(), mark, cfg_single_issuer: cfg.defer_taskrun && !cfg.sqpoll, signals: None })
     }
 
     pub fn sq(&self) -> SubmissionQueue {
@@ -148,6 +151,28 @@ impl World {
             let _scope = track::scope(track::TAG_A10);
             drop(unsafe { Box::from_raw(ptr) });
         }
+        self.drop_signals();
+    }
+
+    /// The `Signals` handle of this world (SIGUSR2, blocked on this thread
+    /// from then on, which is harmless here: nobody sends it).
+    pub fn signals(&mut self) -> &'static a10::process::Signals {
+        if self.signals.is_none() {
+            let sq = self.sq();
+            let _scope = track::scope(track::TAG_A10);
+            let s = a10::process::Signals::from_signals(sq, [a10::process::Signal::USER2]).expect("signalfd");
+            self.signals = Some(Box::into_raw(Box::new(s)));
+        }
+        unsafe { &*self.signals.unwrap() }
+    }
+
+    pub fn take_signals(&mut self) -> Option<Box<a10::process::Signals>> {
+        self.signals.take().map(|p| unsafe { Box::from_raw(p) })
+    }
+
+    pub fn drop_signals(&mut self) {
+        let _scope = track::scope(track::TAG_A10);
+        drop(self.take_signals());
     }
 
     pub fn poll_ring(&mut self, timeout: Option<Duration>) -> std::io::Result<()> {
@@ -174,6 +199,7 @@ impl World {
 impl Drop for World {
     fn drop(&mut self) {
         let _scope = track::scope(track::TAG_A10);
+        drop(self.take_signals());
         for i in 0..self.fds.len() {
             if let Some(ptr) = self.fds[i].take() {
                 drop(unsafe { Box::from_raw(ptr) });
